@@ -61,8 +61,9 @@ Proof.
   - apply lock_same_eq in H2. unfold next_state. simpl. rewrite H2. apply ctx_at_lock.
 Qed.
 
-(* a scan whose SetDesiredCapacity was accepted leaves the lock armed at its own instant *)
-Lemma armed_scan o st i : set_desired_ok (r_calls (scan_at o st i)) = true ->
+(* a scan whose increase the cloud completed (SetDesiredCapacity accepted, or a fleet request accepted and attached in
+   full) leaves the lock armed at its own instant *)
+Lemma armed_scan o st i : increase_done (r_calls (scan_at o st i)) = true ->
   l_time (g_lock (next_state (scan_at o st i))) = Some (si_now i).
 Proof.
   intros Hs. pose proof (group_passes_C02 (si_now i) (si_gdry i) (si_api i) (group_at o st i) (si_asg i) (si_nodes i) (si_pods i)) as H.
@@ -87,13 +88,14 @@ Qed.
 Lemma run_hist_app o st a b : run_hist o st (a ++ b) = run_hist o st a ++ run_hist o (state_after o st a) b.
 Proof. revert st. induction a as [|i a IH]; intros st; simpl; [reflexivity|]. rewrite IH. reflexivity. Qed.
 
-(* C02 over histories: after the cloud accepted a SetDesiredCapacity for the group at the instant of scan i, every later
+(* C02 over histories: after the cloud completed an increase for the group (an accepted SetDesiredCapacity, or a fleet
+   request accepted and attached in full) at the instant of scan i, every later
    scan of the same controller lifetime whose instant is less than the cool-down after it issues no write of any kind —
    whatever the cluster looks like in those scans, whatever fails, for every spacing of the scans *)
 Theorem c02_history o st pre i mid :
   0 <= o_cool o <= max_int64 ->
   let st_i := state_after o st pre in
-  set_desired_ok (r_calls (scan_at o st_i i)) = true ->
+  increase_done (r_calls (scan_at o st_i i)) = true ->
   (forall j, In j mid -> 0 <= si_now j - si_now i < o_cool o) ->
   forall q, In q (run_hist o (next_state (scan_at o st_i i)) mid) -> writes (r_calls (snd q)) = [].
 Proof.
